@@ -165,6 +165,7 @@ fn apply<S: std::hash::BuildHasher + Clone>(c: &mut LruCache<u16, Val, S>, m: &m
                 match r { Err(InsertError::EntryTooLarge { key, value, entry_size, max_size }) =>
                     check!("C10", key == k && value == v && entry_size == es && max_size == m.max, "insert: EntryTooLarge carries wrong data"),
                     _ => return Err(Fail(format!("[C10] insert({}, heap {}): entry_size {} > max_size {} but no EntryTooLarge", k, heap, es, m.max))) }
+                check!("C10 C04", c.len() == len_before && m.pos(k).map(|i| c.peek(&k) == Some(&m.list[i].1)).unwrap_or(!c.contains(&k)), "a rejected insert({}) changed the contents of the cache", k);
             } else {
                 let old = m.pos(k).map(|i| m.list.remove(i).1);
                 let target = m.max - es;
